@@ -82,8 +82,7 @@ theorem magnitude_iff (c : Cfg) (x : Ctx) (v : PyVal) (h : c.ptype = .magnitude)
     validate c x v = .ok () ↔ Sat c x v := by
   unfold validate Sat; simp only [h]; exact numberCore_iff c v
 
-/-- Integer: the code admits every callable, the declaration only the non-generator ones -/
-theorem integer_iff (c : Cfg) (x : Ctx) (v : PyVal) (h : c.ptype = .integer) (hg : v.isGenFn = false) :
+theorem integer_iff (c : Cfg) (x : Ctx) (v : PyVal) (h : c.ptype = .integer) :
     validate c x v = .ok () ↔ Sat c x v := by
   unfold validate Sat; simp only [h]
   rw [seq_ok_iff, numberBounds_ok_iff]
@@ -347,25 +346,13 @@ theorem dateRange_iff (c : Cfg) (x : Ctx) (v : PyVal) (h : c.ptype = .dateRange)
     cases hn : c.allowNone <;>
       simp [dateRangeValue, NoneOk, OnTuple, PyVal.isNone, hn]
 
-theorem calendarDateRangeValue_str (c : Cfg) (s : String) :
-    calendarDateRangeValue c (.str s) ≠ .ok () := by
-  cases hn : c.allowNone <;> cases hs : s.toList <;>
-    simp [calendarDateRangeValue, PyVal.isNone, PyVal.iter?, unpack2, PyVal.isDt, hn, hs]
-
-theorem calendarDateRangeValue_bytes (c : Cfg) (s : String) :
-    calendarDateRangeValue c (.bytes s) ≠ .ok () := by
-  cases hn : c.allowNone <;> cases hs : s.toList <;>
-    simp [calendarDateRangeValue, PyVal.isNone, PyVal.iter?, unpack2, PyVal.isDt, hn, hs]
-
-/-- CalendarDateRange has no tuple test: lists and mappings are excluded by hypothesis -/
 theorem calendarDateRange_iff (c : Cfg) (x : Ctx) (v : PyVal) (h : c.ptype = .calendarDateRange)
-    (hwf : WF c) (hcl : Clean c v) :
+    (hwf : WF c) :
     validate c x v = .ok () ↔ Sat c x v := by
   unfold WF at hwf; simp only [h] at hwf
   obtain ⟨hlen, hbt, hs⟩ := hwf
   have hbt' : boundTypes c.ptype (mapBounds id c.bounds) = .ok () := by
     rw [boundTypes_ok_iff, h, mapBounds_id]; exact hbt
-  unfold Clean at hcl; simp only [h] at hcl
   unfold validate Sat; simp only [h, rangeValidate]
   cases v with
   | none =>
@@ -379,32 +366,30 @@ theorem calendarDateRange_iff (c : Cfg) (x : Ctx) (v : PyVal) (h : c.ptype = .ca
     have hno : ¬ NoneOk c (.tuple xs) := by simp [NoneOk, PyVal.isNone]
     simp only [hno, false_or, OnTuple]
     match xs with
-    | [] => cases hn : c.allowNone <;> simp [calendarDateRangeValue, unpack2, OnPair, PyVal.isNone, PyVal.iter?, hn]
-    | [a] => cases hn : c.allowNone <;> simp [calendarDateRangeValue, unpack2, OnPair, PyVal.isNone, PyVal.iter?, hn]
+    | [] => cases hn : c.allowNone <;> simp [calendarDateRangeValue, unpack2, OnPair, PyVal.isNone, hn]
+    | [a] => cases hn : c.allowNone <;> simp [calendarDateRangeValue, unpack2, OnPair, PyVal.isNone, hn]
     | a :: b :: d :: rest =>
-      cases hn : c.allowNone <;> simp [calendarDateRangeValue, unpack2, OnPair, PyVal.isNone, PyVal.iter?, hn]
+      cases hn : c.allowNone <;> simp [calendarDateRangeValue, unpack2, OnPair, PyVal.isNone, hn]
     | [a, b] =>
       rw [seq_ok_iff]
       simp only [OnPair]
       have hv : calendarDateRangeValue c (.tuple [a, b]) = .ok () ↔
-          a.isDt = true ∧ b.isDt = true ∧ PyVal.le? a b = some true := by
+          a.isDt = true ∧ a.isDatetime = false ∧ b.isDt = true ∧ b.isDatetime = false ∧
+            PyVal.le? a b = some true := by
         cases hn : c.allowNone <;> cases ha : a.isDt <;> cases hb : b.isDt <;>
-          simp [calendarDateRangeValue, unpack2, PyVal.isNone, PyVal.iter?, PyVal.ge?, hn, ha, hb]
+          cases ha' : a.isDatetime <;> cases hb' : b.isDatetime <;>
+          simp [calendarDateRangeValue, unpack2, PyVal.isNone, PyVal.ge?, hn, ha, hb, ha', hb']
       rw [hv]
       constructor
-      · rintro ⟨⟨ha, hb, hle⟩, ht⟩
-        exact ⟨ha, hb, hle, (rangeTail_pair c id a b hlen hbt' hs
+      · rintro ⟨⟨ha, ha', hb, hb', hle⟩, ht⟩
+        exact ⟨ha, ha', hb, hb', hle, (rangeTail_pair c id a b hlen hbt' hs
           (isNone_of_isDt ha) (isNone_of_isDt hb)).1 (by simpa [mapBounds_id] using ht)⟩
-      · rintro ⟨ha, hb, hle, hr⟩
+      · rintro ⟨ha, ha', hb, hb', hle, hr⟩
         have := (rangeTail_pair c id a b hlen hbt' hs (isNone_of_isDt ha) (isNone_of_isDt hb)).2 hr
-        exact ⟨⟨ha, hb, hle⟩, by simpa [mapBounds_id] using this⟩
-  | str s => simp [calendarDateRangeValue_str, NoneOk, OnTuple, PyVal.isNone]
-  | bytes s => simp [calendarDateRangeValue_bytes, NoneOk, OnTuple, PyVal.isNone]
-  | list xs => exact absurd hcl (by simp)
-  | dict ks vs => exact absurd hcl (by simp)
+        exact ⟨⟨ha, ha', hb, hb', hle⟩, by simpa [mapBounds_id] using this⟩
   | _ =>
     cases hn : c.allowNone <;>
-      simp [calendarDateRangeValue, NoneOk, OnTuple, PyVal.isNone, PyVal.iter?, hn]
+      simp [calendarDateRangeValue, NoneOk, OnTuple, PyVal.isNone, hn]
 
 /-! ### List, HookList -/
 
@@ -478,17 +463,15 @@ theorem selector_iff (c : Cfg) (x : Ctx) (v : PyVal) (h : c.ptype = .selector) :
     cases hm : PyVal.pyIn v c.objects <;>
     simp [NoneOk, hv, hn, ← pyIn_iff, hm]
 
-/-- what the ListSelector test lets through, item by item -/
-theorem not_selectorRejects_iff (c : Cfg) (o : PyVal) (hc : c.checkOnSet = true) :
-    (!selectorRejects c o) = true ↔ (c.allowNone = true ∧ o.isNone = true) ∨ Member c.objects o := by
-  unfold selectorRejects
+/-- what the ListSelector test lets through, item by item: members of the objects -/
+theorem not_listItemRejects_iff (c : Cfg) (o : PyVal) (hc : c.checkOnSet = true) :
+    (!listItemRejects c o) = true ↔ Member c.objects o := by
+  unfold listItemRejects selectorRejects
   cases hn : c.allowNone <;> cases hv : o.isNone <;> cases hm : PyVal.pyIn o c.objects <;>
     simp [hc, ← pyIn_iff, hm]
 
-theorem listSelector_iff (c : Cfg) (x : Ctx) (v : PyVal) (h : c.ptype = .listSelector)
-    (hcl : Clean c v) :
+theorem listSelector_iff (c : Cfg) (x : Ctx) (v : PyVal) (h : c.ptype = .listSelector) :
     validate c x v = .ok () ↔ Sat c x v := by
-  unfold Clean at hcl; simp only [h] at hcl
   unfold validate Sat; simp only [h]
   unfold listSelectorValidate
   cases v with
@@ -499,24 +482,14 @@ theorem listSelector_iff (c : Cfg) (x : Ctx) (v : PyVal) (h : c.ptype = .listSel
     cases hc : c.checkOnSet
     · simp
     · simp only [if_true, Bool.true_eq_false, false_or]
-      have hitem : ∀ i ∈ xs, ((!selectorRejects c i) = true ↔ Member c.objects i) := by
-        intro i hi
-        rw [not_selectorRejects_iff c i hc]
-        constructor
-        · rintro (⟨hn, hin⟩ | hm)
-          · have := hcl hn hc
-            simp only [OnList, PyVal.isList, Bool.true_eq_false, or_false] at this
-            exact this i hi hin
-          · exact hm
-        · exact Or.inr
-      cases hall : xs.all (fun o => !selectorRejects c o)
+      cases hall : xs.all (fun o => !listItemRejects c o)
       · simp only [Bool.false_eq_true, if_false, valueErr_eq_ok, false_iff]
         simp only [List.all_eq_false] at hall
         obtain ⟨i, hi, hf⟩ := hall
-        exact fun hm => hf ((hitem i hi).2 (hm i hi))
+        exact fun hm => hf ((not_listItemRejects_iff c i hc).2 (hm i hi))
       · simp only [if_true, ok_def, true_iff]
         simp only [List.all_eq_true] at hall
-        exact fun i hi => (hitem i hi).1 (hall i hi)
+        exact fun i hi => (not_listItemRejects_iff c i hc).1 (hall i hi)
   | _ => cases hn : c.allowNone <;> simp [NoneOk, OnList, PyVal.isNone, hn]
 
 theorem classSelectorCore_iff (c : Cfg) (x : Ctx) (v : PyVal) :
@@ -535,23 +508,14 @@ theorem dict_iff (c : Cfg) (x : Ctx) (v : PyVal) (h : c.ptype = .dict) :
 
 /-! ### Color -/
 
-theorem hexMatch_of_no_newline (s : String) (h : s.toList.getLast? ≠ some '\n') :
-    hexMatch s = hexBody s.toList := by
-  unfold hexMatch
-  have : (s.toList.getLast? == some '\n') = false := by simpa using h
-  simp [this]
-
-theorem color_iff (c : Cfg) (x : Ctx) (v : PyVal) (h : c.ptype = .color) (hcl : Clean c v) :
+theorem color_iff (c : Cfg) (x : Ctx) (v : PyVal) (h : c.ptype = .color) :
     validate c x v = .ok () ↔ Sat c x v := by
-  unfold Clean at hcl; simp only [h] at hcl
   unfold validate Sat; simp only [h]
   cases v with
   | none => cases hn : c.allowNone <;> simp [colorValue, colorNamed, NoneOk, OnStr, PyVal.isNone, PyVal.isStr, hn]
   | str s =>
-    simp only [OnStr, PyVal.isStr, Bool.true_eq_false, or_false] at hcl
-    have hm := hexMatch_of_no_newline s hcl
     cases hn : c.allowNone <;> cases ha : c.allowNamed <;> cases hh : hexBody s.toList <;>
-      simp [colorValue, colorNamed, NoneOk, OnStr, IsHexColor, IsNamedColor, PyVal.isNone, PyVal.isStr, hn, ha, hm, hh]
+      simp [colorValue, colorNamed, hexMatch, NoneOk, OnStr, IsHexColor, IsNamedColor, PyVal.isNone, PyVal.isStr, hn, ha, hh]
   | _ => cases hn : c.allowNone <;> simp [colorValue, colorNamed, NoneOk, OnStr, PyVal.isNone, PyVal.isStr, hn]
 
 /-! ### error kinds -/
@@ -701,7 +665,7 @@ theorem numberLike_iff (c : Cfg) (x : Ctx) (k : NumKind) (q : ExtRat) (h : Numbe
     simp [h, NoneOk, DynamicOk, PyVal.isNone, PyVal.isCallable, PyVal.isNumber]
   · rw [magnitude_iff c x _ h]; unfold Sat
     simp [h, NoneOk, DynamicOk, PyVal.isNone, PyVal.isCallable, PyVal.isNumber]
-  · rw [integer_iff c x _ h (by simp [PyVal.isGenFn])]; unfold Sat
+  · rw [integer_iff c x _ h]; unfold Sat
     simp [h, NoneOk, DynamicOk, PyVal.isNone, PyVal.isCallable, hint]
 
 /-! ### NaN -/
@@ -763,20 +727,17 @@ theorem declaredCfg_eq (a : Args) (n : Nat) : declaredCfg a n = { baseCfg a with
 theorem filter_wf (c : Cfg) (h : WF c) : Option.filter (fun c => decide (WF c)) (some c) = some c := by
   simp [Option.filter, h]
 
-set_option linter.unusedVariables false in
-/-- on clean arguments the length the constructor installs is the declared one -/
-theorem modelLength_eq (a : Args) (hc : CleanArgs a) (ht : isTupleFamily a.ptype = true)
-    (hn : ¬ ((lengthArg a).isNone = true ∧ (ctorDefault a).isNone = true)) :
+/-- the length the constructor installs is the length in force -/
+theorem modelLength_eq (a : Args) (ht : isTupleFamily a.ptype = true) :
     modelLength a = specLength a := by
-  unfold modelLength specLength
-  unfold CleanArgs declaredLength at hc
+  unfold modelLength specLength lengthDeclared
   rw [specDefault_eq]
-  cases hp : a.ptype <;> simp [hp, isTupleFamily] at ht <;> simp only [hp, lengthArg] at hc hn ⊢ <;>
-    rcases hd : a.default with _ | d0 <;> (try rcases hl : a.length with _ | n') <;>
-    simp_all [ctorDefault]
+  cases hp : a.ptype <;> simp [hp, isTupleFamily] at ht <;> simp only [hp, lengthArg] <;>
+    rcases hd : a.default with _ | d0 <;> simp [ctorDefault, hd, hp] <;>
+    (try split) <;> simp_all <;> cases a.length <;> rfl
 
 /-- `ctor_arg_effective`, structural part: the slots the constructor installs are the declared ones -/
-theorem mkCfg_spec (a : Args) (c : Cfg) (d : PyVal) (hc : CleanArgs a)
+theorem mkCfg_spec (a : Args) (c : Cfg) (d : PyVal)
     (hmk : mkCfg a = .ok (c, d)) (hwf : WF c) : specCfg a = some c ∧ d = specDefault a := by
   unfold mkCfg at hmk
   unfold specCfg
@@ -791,9 +752,7 @@ theorem mkCfg_spec (a : Args) (c : Cfg) (d : PyVal) (hc : CleanArgs a)
   · simp only [ht, if_true] at hmk
     split at hmk
     · simp at hmk
-    · rename_i hn
-      have hn' : ¬ ((lengthArg a).isNone = true ∧ (ctorDefault a).isNone = true) := by simpa using hn
-      rw [← modelLength_eq a hc ht hn']
+    · rw [← modelLength_eq a ht]
       cases hm : modelLength a with
       | none => simp [hm] at hmk
       | some n =>
@@ -816,6 +775,6 @@ theorem ctorValidate_eq (c : Cfg) (x : Ctx) (d : PyVal) :
   · -- listSelector
     cases d <;> simp [validate, h, listSelectorValidate, PyVal.isNone]
     rename_i xs
-    cases hc : c.checkOnSet <;> simp [selectorRejects, hc]
+    cases hc : c.checkOnSet <;> simp [listItemRejects, selectorRejects, hc]
 
 end ParamVerif.Validate
